@@ -72,7 +72,8 @@ class Bounded:
 
 class Property:
     def __init__(self, pid, tasks, assumptions, trusted_base, functions, bounded=(), notes="",
-                 confirm=None, syntactic=None):
+                 confirm=None, syntactic=None, level="proof"):
+        self.level = level  # level reported for a clean run: "proof", or "exploration" when the bounded part decides
         self.pid = pid
         self.tasks = tasks
         self.assumptions = assumptions
@@ -466,7 +467,7 @@ def run_check(mod, prop, tier, seed, a, t0):
     if n_vc == 0:
         print(f"CHECKER-ERROR property={pid} zero obligations generated")
         internal = True
-    level = "proof" if (not unknown and not internal and violations == 0 and n_dis == n_vc) else "other"
+    level = prop.level if (not unknown and not internal and violations == 0 and n_dis == n_vc) else "other"
     if unknown and fallback_used and not internal and violations == 0:
         # the deductive check is incomplete on this tree; the bounded stand-in ran instead and found nothing
         level = "exploration"
